@@ -176,3 +176,68 @@ def get_oid_reports_the_resolved_nodes_id(c: Cache, path: str, other: str):
     else:
         check(go is g[0].result.oid or go == g[0].result.oid, "the id is the one the resolved node carries")
     check(id_map(c, other) is before, "get_oid changes no binding")
+
+
+@lemma(props=["C19"], configs="none", raises=["ValueError"],
+       stubs={"cloudsync.hierarchical_cache:HierarchicalCache._get_node": {"results": ["node?"]},
+              "cloudsync.hierarchical_cache:HierarchicalCache._delete": {"results": ["None"]},
+              "cloudsync.hierarchical_cache:HierarchicalCache.delete": {"results": ["None"]},
+              "cloudsync.hierarchical_cache:HierarchicalCache._HierarchicalCache__insert_node": {"results": ["None"]},
+              "cloudsync.hierarchical_cache:HierarchicalCache._check": {"results": ["None"]}})
+def rename_detaches_clears_the_target_then_inserts(c: Cache, old_path: str, new_path: str):
+    """L19.9: rename = detach + delete target + insert, in that order: the node at the old path is looked up once; the root
+    is refused (ValueError) before anything is touched; the node is detached (_delete of exactly that node), then whatever
+    sits at the new path is deleted with its whole subtree (delete by that path), then the same node -- so its whole
+    subtree moves with it -- is inserted at the new path and returned; when nothing is at the old path the target is
+    still cleared and nothing is inserted"""
+    try:
+        r = c._rename(old_path, new_path)
+        raised = False
+    except ValueError:
+        raised = True
+    g = calls("_get_node")
+    d1 = calls("_delete")
+    d2 = calls("delete")
+    ins = calls("_HierarchicalCache__insert_node")
+    check(len(g) == 1 and g[0].kw_path == old_path, "one lookup, of the old path")
+    node = g[0].result
+    if node is not None and node.is_root:
+        check(raised, "the root cannot be renamed")
+        check(len(d1) == 0 and len(d2) == 0 and len(ins) == 0, "and nothing was touched")
+    else:
+        check(not raised, "anything else is accepted")
+        check(len(d1) == 1 and d1[0].args[0] is node, "the node found (or nothing) is detached")
+        check(len(d2) == 1 and d2[0].kw_path == new_path, "whatever sits at the new path is deleted, by that path")
+        order = [x for x in effect_names() if x in ("_delete", "delete", "_HierarchicalCache__insert_node")]
+        if node is None:
+            check(len(ins) == 0 and r is None, "nothing to insert")
+            check(order == ["_delete", "delete"], "in that order")
+        else:
+            check(len(ins) == 1 and ins[0].args[0] is node and ins[0].args[1] == new_path, "the same node is inserted at the new path")
+            check(r is node, "and returned")
+            check(order == ["_delete", "delete", "_HierarchicalCache__insert_node"], "detach, clear the target, insert -- in that order")
+
+
+@lemma(props=["C19"], configs="none",
+       stubs={"cloudsync.hierarchical_cache:HierarchicalCache._get_node": {"results": ["node?"]},
+              "cloudsync.hierarchical_cache:HierarchicalCache._check_metadata": {"results": ["None"]}})
+def metadata_is_set_on_the_node_resolved(c: Cache, path: str, other: str):
+    """L19.10: set_metadata hands the metadata to the template validation and replaces the metadata of exactly the node
+    the lookup resolves; get_metadata returns that node's metadata; neither touches the id map"""
+    before = id_map(c, other)
+    md = {"k": 1}
+    c.set_metadata(md, path=path)
+    g = calls("_get_node")
+    v = calls("_check_metadata")
+    check(len(v) == 1 and v[0].args[0] is md, "the metadata is validated")
+    check(len(g) == 1 and g[0].kw_path == path, "one lookup")
+    if g[0].result is not None:
+        check(g[0].result.metadata is md, "the resolved node carries the new metadata")
+    r = c.get_metadata(path=path)
+    g2 = calls("_get_node")
+    check(len(g2) == 2, "one more lookup")
+    if g2[1].result is None:
+        check(r is None, "no node: no metadata")
+    else:
+        check(r is g2[1].result.metadata, "the resolved node's metadata is returned")
+    check(id_map(c, other) is before, "the id map is untouched")
